@@ -1,7 +1,7 @@
 (* Data/RepState.v — the representation invariant lifted to whole states and to every command sequence
    with strictly increasing raft timestamps (fold of map_step from the empty store). *)
 From ZV Require Import Common.Bytes Common.BytesFacts Data.Consts Data.Base Data.BaseFacts Data.Map Data.MapZ Data.MapL Data.MapK
-  Data.Spec Data.SpecZ Data.SpecL Data.SpecK Data.Run Data.RepColl Data.RepHS Data.RepL Data.RepZ.
+  Data.Spec Data.SpecZ Data.SpecL Data.SpecK Data.Run Data.RepColl Data.RepHS Data.RepL Data.RepZ Data.ExpFacts.
 From Coq Require Import Lia.
 Open Scope Z_scope.
 
@@ -11,11 +11,31 @@ Section ST.
   (* every stored record satisfies the invariant of its type *)
   Definition all_recs {V} (P : V -> Prop) (m : list (bytes * V)) : Prop := forall k v, In (k, v) m -> P v.
 
+  (* the invariant of a stored record does not involve its ExpireAt *)
+  Definition XP {R} (P : R -> Prop) (x : xr R) : Prop := P (x_r x).
+
   Record RepS (clock : Z) (s : mstate) : Prop := {
-    rs_hash : all_recs (RepC compact clock) (m_hash s);
-    rs_set : all_recs (RepC compact clock) (m_set s);
-    rs_zset : all_recs (RepZ compact clock) (m_zset s);
-    rs_list : all_recs (RepL compact clock) (m_list s) }.
+    rs_hash : all_recs (XP (RepC compact clock)) (m_hash s);
+    rs_set : all_recs (XP (RepC compact clock)) (m_set s);
+    rs_zset : all_recs (XP (RepZ compact clock)) (m_zset s);
+    rs_list : all_recs (XP (RepL compact clock)) (m_list s) }.
+
+  (* the in-memory renewal of an expired header (only under wait_compact) keeps the invariant: the
+     element keys of the old generation are garbage below the clock *)
+  Lemma forget_c_rep {V} clock (c : coll V) : compact = true -> RepC compact clock c -> RepC compact clock (forget_c c).
+  Proof.
+    intros C [A B N D E]. constructor; cbn [forget_c c_meta c_elems]; auto.
+    - intros m Hm; discriminate.
+    - intros _ F. rewrite C in F; discriminate.
+  Qed.
+  Lemma forget_z_rep clock z : compact = true -> RepZ compact clock z -> RepZ compact clock (forget_z z).
+  Proof. intros C [A B]. constructor; cbn [forget_z z_c z_index]; [apply forget_c_rep; assumption|exact B]. Qed.
+  Lemma forget_l_rep clock l : compact = true -> RepL compact clock l -> RepL compact clock (forget_l l).
+  Proof.
+    intros C [A B N D]. constructor; cbn [forget_l l_meta l_elems]; auto.
+    - intros m Hm; discriminate.
+    - intros _ F. rewrite C in F; discriminate.
+  Qed.
 
   Lemma all_recs_mono {V} (P Q : V -> Prop) m : (forall v, P v -> Q v) -> all_recs P m -> all_recs Q m.
   Proof. intros H A k v Hin. apply H, (A k v Hin). Qed.
@@ -56,8 +76,8 @@ Section ST.
   Lemma RepS_init : RepS 0 m_init.
   Proof. constructor; intros k v []. Qed.
 
-  (* one command (write, read or failing) with a timestamp above the clock preserves the invariant *)
-  Theorem map_step_rep clock ts c s : RepS clock s -> 0 <= clock < ts -> RepS ts (fst (map_step compact ts c s)).
+  (* one command (write, read, expiry command or failing) with a timestamp above the clock preserves the invariant *)
+  Theorem map_step_rep clock now ts c s : RepS clock s -> 0 <= clock < ts -> RepS ts (fst (map_step compact now ts c s)).
   Proof.
     intros R L. pose proof (RepS_mono clock ts s ltac:(lia) R) as Rm.
     destruct R as [A B C D].
@@ -65,44 +85,76 @@ Section ST.
     assert (MZ : forall v, RepZ compact clock v -> RepZ compact ts v) by (intros v; apply RepZ_mono; lia).
     assert (ML : forall v, RepL compact clock v -> RepL compact ts v) by (intros v; apply RepL_mono; lia).
     assert (MS : forall v : scoll, RepC compact clock v -> RepC compact ts v) by (intros v; apply RepC_mono; lia).
-    assert (HH : forall key (f : hcoll -> hcoll * reply),
-               (forall v, RepC compact clock v -> RepC compact ts (fst (f v))) ->
-               RepS ts (fst (let '(m, r) := aupd empty_coll key f (m_hash s) in
+    assert (HH : forall key (f : xr hcoll -> xr hcoll * reply),
+               (forall v, XP (RepC compact clock) v -> XP (RepC compact ts) (fst (f v))) ->
+               RepS ts (fst (let '(m, r) := aupd (x0 empty_coll) key f (m_hash s) in
                              (Build_mstate m (m_set s) (m_zset s) (m_list s) (m_kv s), r)))).
     { intros key f Hf.
-      pose proof (aupd_recs (RepC compact clock) (RepC compact ts) empty_coll key f (m_hash s) MH (RepC_empty compact clock) Hf A) as H.
-      destruct (aupd empty_coll key f (m_hash s)) as [m r]. cbn [fst] in *.
+      pose proof (aupd_recs (XP (RepC compact clock)) (XP (RepC compact ts)) (x0 empty_coll) key f (m_hash s) (fun v => MH (x_r v)) (RepC_empty compact clock) Hf A) as H.
+      destruct (aupd (x0 empty_coll) key f (m_hash s)) as [m r]. cbn [fst] in *.
       destruct Rm as [_ B' C' D']. constructor; auto. }
-    assert (SS : forall key (f : scoll -> scoll * reply),
-               (forall v, RepC compact clock v -> RepC compact ts (fst (f v))) ->
-               RepS ts (fst (let '(m, r) := aupd empty_coll key f (m_set s) in
+    assert (SS : forall key (f : xr scoll -> xr scoll * reply),
+               (forall v, XP (RepC compact clock) v -> XP (RepC compact ts) (fst (f v))) ->
+               RepS ts (fst (let '(m, r) := aupd (x0 empty_coll) key f (m_set s) in
                              (Build_mstate (m_hash s) m (m_zset s) (m_list s) (m_kv s), r)))).
     { intros key f Hf.
-      pose proof (aupd_recs (RepC compact clock) (RepC compact ts) empty_coll key f (m_set s) MS (RepC_empty compact clock) Hf B) as H.
-      destruct (aupd empty_coll key f (m_set s)) as [m r]. cbn [fst] in *.
+      pose proof (aupd_recs (XP (RepC compact clock)) (XP (RepC compact ts)) (x0 empty_coll) key f (m_set s) (fun v => MS (x_r v)) (RepC_empty compact clock) Hf B) as H.
+      destruct (aupd (x0 empty_coll) key f (m_set s)) as [m r]. cbn [fst] in *.
       destruct Rm as [A' _ C' D']. constructor; auto. }
+    assert (ZZ : forall key (f : xr zcoll -> xr zcoll * reply),
+               (forall v, XP (RepZ compact clock) v -> XP (RepZ compact ts) (fst (f v))) ->
+               RepS ts (fst (let '(m, r) := aupd (x0 empty_zcoll) key f (m_zset s) in
+                             (Build_mstate (m_hash s) (m_set s) m (m_list s) (m_kv s), r)))).
+    { intros key f Hf.
+      pose proof (aupd_recs (XP (RepZ compact clock)) (XP (RepZ compact ts)) (x0 empty_zcoll) key f (m_zset s) (fun v => MZ (x_r v)) (RepZ_empty compact clock) Hf C) as H.
+      destruct (aupd (x0 empty_zcoll) key f (m_zset s)) as [m r]. cbn [fst] in *.
+      destruct Rm as [A' B' _ D']. constructor; auto. }
+    assert (LL : forall key (f : xr lcoll -> xr lcoll * reply),
+               (forall v, XP (RepL compact clock) v -> XP (RepL compact ts) (fst (f v))) ->
+               RepS ts (fst (let '(m, r) := aupd (x0 empty_lcoll) key f (m_list s) in
+                             (Build_mstate (m_hash s) (m_set s) (m_zset s) m (m_kv s), r)))).
+    { intros key f Hf.
+      pose proof (aupd_recs (XP (RepL compact clock)) (XP (RepL compact ts)) (x0 empty_lcoll) key f (m_list s) (fun v => ML (x_r v)) (RepL_empty compact clock) Hf D) as H.
+      destruct (aupd (x0 empty_lcoll) key f (m_list s)) as [m r]. cbn [fst] in *.
+      destruct Rm as [A' B' C' _]. constructor; auto. }
+    assert (FH : compact = true -> forall r : hcoll, RepC compact clock r -> RepC compact clock (forget_c r))
+      by (intros Cc r; apply forget_c_rep; exact Cc).
+    assert (FS : compact = true -> forall r : scoll, RepC compact clock r -> RepC compact clock (forget_c r))
+      by (intros Cc r; apply forget_c_rep; exact Cc).
+    assert (FZ : compact = true -> forall r, RepZ compact clock r -> RepZ compact clock (forget_z r))
+      by (intros Cc r; apply forget_z_rep; exact Cc).
+    assert (FL : compact = true -> forall r, RepL compact clock r -> RepL compact clock (forget_l r))
+      by (intros Cc r; apply forget_l_rep; exact Cc).
     destruct c; cbn [map_step]; try exact Rm.
-    - apply HH. intros v Rv. apply (hset_rep compact clock); auto.
-    - apply HH. intros v Rv. apply (hmset_rep compact clock); auto.
-    - apply HH. intros v Rv. apply MH, hdel_rep; exact Rv.
-    - apply HH. intros v Rv. apply (hincrby_rep compact clock); auto.
-    - apply HH. intros v Rv. apply MH, hclear_rep; exact Rv.
-    - apply SS. intros v Rv. apply (sadd_rep compact clock); auto.
-    - apply SS. intros v Rv. apply MS, srem_rep; exact Rv.
-    - apply SS. intros v Rv. apply MS, spop_rep; exact Rv.
-    - apply SS. intros v Rv. apply MS, sclear_rep; exact Rv.
+    - (* *expire *)
+      destruct (negb (key_ok key)); [exact Rm|].
+      destruct t; [apply HH|apply SS|apply ZZ|apply LL]; intros v Rv; unfold XP in *; rewrite xexpire_r; auto.
+    - (* *persist *)
+      destruct (negb (key_ok key)); [exact Rm|].
+      destruct t; [apply HH|apply SS|apply ZZ|apply LL]; intros v Rv; unfold XP in *; rewrite xpersist_r; auto.
+    - (* *ttl *)
+      destruct (negb (key_ok key)); exact Rm.
+    - apply HH. intros v Rv. unfold XP in *. apply (xrenew_inv exists_coll forget_c compact (RepC compact clock) (RepC compact ts)); auto. intros r Rr. apply (hset_rep compact clock); auto.
+    - apply HH. intros v Rv. unfold XP in *. apply (xrenew_inv exists_coll forget_c compact (RepC compact clock) (RepC compact ts)); auto. intros r Rr. apply (hmset_rep compact clock); auto.
+    - apply HH. intros v Rv. unfold XP in *. apply (xguard_inv exists_coll compact (RepC compact clock) (RepC compact ts)); auto. intros r Rr. apply MH, hdel_rep; exact Rr.
+    - apply HH. intros v Rv. unfold XP in *. apply (xrenew_inv exists_coll forget_c compact (RepC compact clock) (RepC compact ts)); auto. intros r Rr. apply (hincrby_rep compact clock); auto.
+    - apply HH. intros v Rv. unfold XP in *. apply (xguard_inv exists_coll compact (RepC compact clock) (RepC compact ts)); auto. intros r Rr. apply MH, hclear_rep; exact Rr.
+    - apply SS. intros v Rv. unfold XP in *. apply (xrenew_inv exists_coll forget_c compact (RepC compact clock) (RepC compact ts)); auto. intros r Rr. apply (sadd_rep compact clock); auto.
+    - apply SS. intros v Rv. unfold XP in *. apply (xguard_inv exists_coll compact (RepC compact clock) (RepC compact ts)); auto. intros r Rr. apply MS, srem_rep; exact Rr.
+    - apply SS. intros v Rv. unfold XP in *. apply (xguard_inv exists_coll compact (RepC compact clock) (RepC compact ts)); auto. intros r Rr. apply MS, spop_rep; exact Rr.
+    - apply SS. intros v Rv. unfold XP in *. apply (xguard_inv exists_coll compact (RepC compact clock) (RepC compact ts)); auto. intros r Rr. apply MS, sclear_rep; exact Rr.
     - (* zset write *)
-      pose proof (aupd_recs (RepZ compact clock) (RepZ compact ts) empty_zcoll key (MapZ.zstep compact ts key c) (m_zset s)
-                            MZ (RepZ_empty compact clock) (fun v Rv => zstep_rep compact clock ts key c v Rv L) C) as H.
-      destruct (aupd empty_zcoll key (MapZ.zstep compact ts key c) (m_zset s)) as [m r]. cbn [fst] in *.
-      destruct Rm as [A' B' _ D']. constructor; auto.
+      apply ZZ. intros v Rv. unfold XP in *.
+      destruct (z_renews c).
+      + apply (xrenew_inv live_z forget_z compact (RepZ compact clock) (RepZ compact ts)); auto. intros r Rr. apply (zstep_rep compact clock); auto.
+      + apply (xguard_inv live_z compact (RepZ compact clock) (RepZ compact ts)); auto. intros r Rr. apply (zstep_rep compact clock); auto.
     - (* list write *)
-      pose proof (aupd_recs (RepL compact clock) (RepL compact ts) empty_lcoll key (MapL.lstep compact ts key c) (m_list s)
-                            ML (RepL_empty compact clock) (fun v Rv => lstep_rep compact clock ts key c v Rv L) D) as H.
-      destruct (aupd empty_lcoll key (MapL.lstep compact ts key c) (m_list s)) as [m r]. cbn [fst] in *.
-      destruct Rm as [A' B' C' _]. constructor; auto.
+      apply LL. intros v Rv. unfold XP in *.
+      destruct (l_renews c).
+      + apply (xrenew_inv l_exists forget_l compact (RepL compact clock) (RepL compact ts)); auto. intros r Rr. apply (lstep_rep compact clock); auto.
+      + apply (xguard_inv l_exists compact (RepL compact clock) (RepL compact ts)); auto. intros r Rr. apply (lstep_rep compact clock); auto.
     - (* kv write: the collections are untouched *)
-      destruct (MapK.kstep ts c (m_kv s)) as [m r]. cbn [fst]. destruct Rm as [A' B' C' D']. constructor; auto.
+      destruct (MapK.kstep compact ts c (m_kv s)) as [m r]. cbn [fst]. destruct Rm as [A' B' C' D']. constructor; auto.
   Qed.
 
   (* strictly increasing timestamps above the clock *)
@@ -114,8 +166,8 @@ Section ST.
   Fixpoint last_ts (clock : Z) (cs : list (Z * cmd)) : Z :=
     match cs with [] => clock | (ts, _) :: r => last_ts ts r end.
 
-  Theorem map_run_rep cs : forall clock s, RepS clock s -> 0 <= clock -> increasing clock cs ->
-    RepS (last_ts clock cs) (map_run compact cs s).
+  Theorem map_run_rep now cs : forall clock s, RepS clock s -> 0 <= clock -> increasing clock cs ->
+    RepS (last_ts clock cs) (map_run compact now cs s).
   Proof.
     induction cs as [|[ts c] r IH]; intros clock s R L I; cbn [map_run fold_left last_ts]; [exact R|].
     destruct I as [I1 I2]. apply IH; [|lia|exact I2].
